@@ -16,6 +16,9 @@ char *strtok_r(char *str, const char *delim, char **saveptr) {
 	/* search first not delimiting character */
 	do {
 		if ('\0' == (ch = *str++)) {
+			/* no token left: following calls must not go back to an
+			 * older position (possibly inside another string) */
+			*saveptr = str - 1;
 			return NULL;
 		}
 	} while(strchr(delim, ch));
